@@ -4,6 +4,7 @@ import (
 	"encoding/json"
 	"fmt"
 	"os"
+	"regexp"
 	"sort"
 	"strings"
 	"sync/atomic"
@@ -189,6 +190,9 @@ func jsVerdictsOf(ctx *cue.Context, schemaJSON []byte, insts []cue.Value) (jsVer
 
 // jsDefectClass names the known translation defect a schema falls under
 // (see known_findings.json), or "".
+// a boolean false schema as a member of oneOf / anyOf
+var reFalseMember = regexp.MustCompile(`"(oneOf|anyOf)":\[([^\[\]]*,)?false[,\]]`)
+
 func jsDefectClass(schemaJSON []byte, sval cue.Value) string {
 	js := string(schemaJSON)
 	gen := ""
@@ -203,11 +207,13 @@ func jsDefectClass(schemaJSON []byte, sval cue.Value) string {
 	switch {
 	case strings.Contains(js, `"propertyNames"`):
 		return "propertyNames"
+	case reFalseMember.MatchString(js):
+		return "oneOf-false"
 	case strings.Contains(js, `"allOf":[false`) || strings.Contains(js, `,false]`) && strings.Contains(js, `"allOf"`):
 		return "allOf-false"
-	case strings.Contains(js, `"if"`) && strings.Contains(gen, `error("disallowed")`):
+	case strings.Contains(js, `"if"`) && strings.Contains(gen, `"disallowed"`):
 		return "matchIf-eager-error"
-	case strings.Contains(js, `"$ref":"#/$defs/d"`) && !strings.Contains(js, `"allOf"`) && !strings.Contains(js, `"anyOf"`) && !strings.Contains(js, `"oneOf"`):
+	case strings.HasPrefix(js, `{"$defs":`) && strings.Contains(js, `"$ref":"#/$defs/d"`):
 		return "ref-to-local-definition"
 	}
 	return ""
@@ -347,8 +353,15 @@ func checkC13(r *kit.Run) {
 					r.Violation("class generate-ref-with-type-object", fmt.Sprintf("schema %s is generated back as %s: a \"type\": \"object\" appears next to the root $ref, so %s is judged differently", sj, gj, jsInstances[i]), map[string]any{"schema": json.RawMessage(sj), "generated_back": json.RawMessage(gj)})
 					continue
 				}
-				if (!v.acc[i] || strings.Contains(string(sj), `"not"`)) && strings.Contains(string(sj), `"additionalProperties"`) && (strings.Contains(string(sj), `"properties"`) || strings.Contains(string(sj), `"patternProperties"`)) {
+				if (!v.acc[i] || strings.Contains(string(sj), `"not"`) || strings.Contains(string(sj), `"oneOf"`) || strings.Contains(string(sj), `"if"`)) && strings.Contains(string(sj), `"additionalProperties"`) && (strings.Contains(string(sj), `"properties"`) || strings.Contains(string(sj), `"patternProperties"`)) {
 					r.Violation("class generate-permissive-additionalProperties", fmt.Sprintf("schema %s is generated back as %s, which also accepts %s", sj, gj, jsInstances[i]), map[string]any{"schema": json.RawMessage(sj), "generated_back": json.RawMessage(gj)})
+					continue
+				}
+				if tlaval.AsInt(st["lvl"]) >= 2 {
+					// compound schemas (keyword pairs, deeper nesting): the generator is lossy in many such
+					// shapes; one class for the family (DESIGN.md §10.4), exact keys only on the first level
+					r.Add("regenerate_mismatches_level2", 1)
+					r.Violation("class generate-lossy-compound", fmt.Sprintf("schema %s is generated back as %s, which judges %s differently (back=%v, original=%v)", sj, gj, jsInstances[i], v2.acc[i], v.acc[i]), map[string]any{"schema": json.RawMessage(sj), "generated_back": json.RawMessage(gj)})
 					continue
 				}
 				r.Violation("regenerate "+string(sj)+" ## "+jsInstances[i], fmt.Sprintf("instance %s: the schema generated back from the CUE accepts=%v, the original accepts=%v", jsInstances[i], v2.acc[i], v.acc[i]), map[string]any{"schema": json.RawMessage(sj), "generated_back": json.RawMessage(gj), "instance": json.RawMessage(jsInstances[i])})
